@@ -43,7 +43,7 @@ Proof.
     apply filter_In in H as [_ H]. unfold slot_open in H. destruct (lookup k t); auto. discriminate.
 Qed.
 
-(* ---- invariant of the repaired discipline -------------------------------------------------- *)
+(* ---- ownership invariant of the (repaired) code -------------------------------------------------- *)
 Definition Inv (st : state) : Prop :=
   (forall o ob, nth_error (objs st) o = Some ob -> o_open ob = true ->
                 lookup (o_ncid ob) (tbl st) = Some (o_file ob))
@@ -104,7 +104,7 @@ Proof.
     exact (I2 o1 o2 ob1 ob2 Hne H1 H2 Ho1 Ho2).
 Qed.
 
-Lemma Inv_spec_step st e : Inv st -> Inv (spec_step st e).
+Lemma Inv_impl_step st e : Inv st -> Inv (impl_step st e).
 Proof.
   intros I. destruct e as [f|o]; simpl.
   - apply Inv_open. exact I.
@@ -112,18 +112,18 @@ Proof.
     destruct (o_open ob) eqn:Eo; auto. apply Inv_close; auto.
 Qed.
 
-Lemma Inv_spec_run_from st h : Inv st -> Inv (fold_left spec_step h st).
-Proof. revert st; induction h as [|e t IH]; simpl; intros st I; auto. apply IH, Inv_spec_step, I. Qed.
+Lemma Inv_impl_run_from st h : Inv st -> Inv (fold_left impl_step h st).
+Proof. revert st; induction h as [|e t IH]; simpl; intros st I; auto. apply IH, Inv_impl_step, I. Qed.
 
-Lemma Inv_spec_run h : Inv (spec_run h).
-Proof. apply Inv_spec_run_from, Inv0. Qed.
+Lemma Inv_impl_run h : Inv (impl_run h).
+Proof. apply Inv_impl_run_from, Inv0. Qed.
 
 (* an object that received no Close is still flagged open in the repaired run *)
 Definition OpenUnless (closed : nat -> Prop) (st : state) : Prop :=
   forall o ob, nth_error (objs st) o = Some ob -> ~ closed o -> o_open ob = true.
 
 Lemma open_unless_step (P : nat -> Prop) st e :
-  OpenUnless P st -> (forall o, e = Close o -> P o) -> OpenUnless P (spec_step st e).
+  OpenUnless P st -> (forall o, e = Close o -> P o) -> OpenUnless P (impl_step st e).
 Proof.
   intros H He. destruct e as [f|o]; simpl.
   - intros o ob Hn Hc. apply nth_error_snoc in Hn as [[_ Hn]|[_ ->]]; eauto.
@@ -135,7 +135,7 @@ Proof.
 Qed.
 
 Lemma open_unless_run_from (P : nat -> Prop) : forall h st,
-  OpenUnless P st -> (forall o, In (Close o) h -> P o) -> OpenUnless P (fold_left spec_step h st).
+  OpenUnless P st -> (forall o, In (Close o) h -> P o) -> OpenUnless P (fold_left impl_step h st).
 Proof.
   induction h as [|e t IH]; simpl; intros st H Hin; auto.
   apply IH.
@@ -143,70 +143,39 @@ Proof.
   - intros o Ho. apply Hin. right. exact Ho.
 Qed.
 
-Lemma close_local_spec h o ob :
-  nth_error (objs (spec_run h)) o = Some ob -> ~ In (Close o) h ->
-  read (spec_run h) o = Some (o_file ob).
+Lemma close_local h o ob :
+  nth_error (objs (impl_run h)) o = Some ob -> ~ In (Close o) h ->
+  read (impl_run h) o = Some (o_file ob).
 Proof.
   intros Hn Hc. unfold read. rewrite Hn.
-  destruct (Inv_spec_run h) as [I1 _]. apply (I1 o ob Hn).
+  destruct (Inv_impl_run h) as [I1 _]. apply (I1 o ob Hn).
   refine (open_unless_run_from (fun o => In (Close o) h) h st0 _ _ o ob Hn Hc).
   - intros o' ob' H'. destruct o'; discriminate.
   - auto.
 Qed.
 
-(* ---- the code coincides with the repaired discipline on safe histories ------------------------- *)
-Lemma impl_spec_step st e : Inv st -> harmless st e = true -> impl_step st e = spec_step st e.
+(* ---- closing any number of times ----------------------------------------------------------------- *)
+Lemma close_idempotent st o : impl_step (impl_step st (Close o)) (Close o) = impl_step st (Close o).
 Proof.
-  intros [I1 _] H. destruct e as [f|o]; simpl in *; auto.
-  destruct (nth_error (objs st) o) as [ob|] eqn:E; auto.
-  destruct (o_open ob) eqn:Eo.
-  - unfold slot_open. rewrite (I1 o ob E Eo). reflexivity.
-  - simpl in H. apply negb_true_iff in H. rewrite H. reflexivity.
+  simpl. destruct (nth_error (objs st) o) as [ob|] eqn:E.
+  - destruct (o_open ob) eqn:Eo; simpl.
+    + rewrite (nth_error_set_same _ _ _ _ E). simpl. reflexivity.
+    + rewrite E, Eo. reflexivity.
+  - rewrite E. reflexivity.
 Qed.
 
-Lemma safe_run_from : forall h st, Inv st -> safe_from st h = true ->
-  fold_left impl_step h st = fold_left spec_step h st.
+(* two objects that are open never share a slot, and every open object's slot holds its own file *)
+Lemma ownership h : Inv (impl_run h).
+Proof. apply Inv_impl_run. Qed.
+
+(* a close of object o leaves what every OTHER object reads untouched, provided that object is open *)
+Lemma close_is_local h o o' ob' :
+  o <> o' -> nth_error (objs (impl_run h)) o' = Some ob' -> o_open ob' = true ->
+  read (impl_step (impl_run h) (Close o)) o' = read (impl_run h) o'.
 Proof.
-  induction h as [|e t IH]; simpl; intros st I H; auto.
-  apply andb_true_iff in H as [H1 H2].
-  rewrite (impl_spec_step st e I H1) in *. apply IH; auto. apply Inv_spec_step. exact I.
-Qed.
-
-Lemma close_local_partial h o ob :
-  safe h = true ->
-  impl_run h = spec_run h
-  /\ (nth_error (objs (impl_run h)) o = Some ob -> ~ In (Close o) h -> read (impl_run h) o = Some (o_file ob)).
-Proof.
-  intros H. assert (E : impl_run h = spec_run h) by (apply safe_run_from; [apply Inv0 | exact H]).
-  split; auto. rewrite E. apply close_local_spec.
-Qed.
-
-(* ---- refutation witnesses ---------------------------------------------------------------------- *)
-(* A = netcdf(f0); A.close(); B = netcdf(f1); <finaliser of A>  ->  B reads "Not a valid ID" *)
-Lemma close_local_refuted_w :
-  read (impl_run [Open 0; Close 0; Open 1; Close 0]) 1 = None
-  /\ read (spec_run [Open 0; Close 0; Open 1; Close 0]) 1 = Some 1.
-Proof. vm_compute. split; reflexivity. Qed.
-
-(* ... C = netcdf(f2) afterwards: B silently reads the data of f2 *)
-Lemma wrong_data_refuted_w :
-  read (impl_run [Open 0; Close 0; Open 1; Close 0; Open 2]) 1 = Some 2
-  /\ read (spec_run [Open 0; Close 0; Open 1; Close 0; Open 2]) 1 = Some 1.
-Proof. vm_compute. split; reflexivity. Qed.
-
-Lemma close_local_refuted : exists h o ob,
-  nth_error (objs (impl_run h)) o = Some ob /\ ~ In (Close o) h /\ read (impl_run h) o = None.
-Proof.
-  exists [Open 0; Close 0; Open 1; Close 0], 1, (Obj 1 1 true). split; [reflexivity|]. split.
-  - simpl. intros [H|[H|[H|[H|[]]]]]; discriminate.
-  - exact (proj1 close_local_refuted_w).
-Qed.
-
-Lemma wrong_data_refuted : exists h o ob f,
-  nth_error (objs (impl_run h)) o = Some ob /\ ~ In (Close o) h
-  /\ read (impl_run h) o = Some f /\ f <> o_file ob.
-Proof.
-  exists [Open 0; Close 0; Open 1; Close 0; Open 2], 1, (Obj 1 1 true), 2. split; [reflexivity|]. split.
-  - simpl. intros [H|[H|[H|[H|[H|[]]]]]]; discriminate.
-  - split; [exact (proj1 wrong_data_refuted_w) | simpl; discriminate].
+  intros Hne Hn Ho. destruct (ownership h) as [I1 I2]. unfold read. simpl.
+  destruct (nth_error (objs (impl_run h)) o) as [ob|] eqn:E; auto.
+  destruct (o_open ob) eqn:Eo; auto. simpl.
+  rewrite nth_error_set_other by assumption. rewrite Hn.
+  apply lookup_remove_other. exact (I2 o o' ob ob' Hne E Hn Eo Ho).
 Qed.
